@@ -19,6 +19,9 @@
      AssignRO(o,p,v) the same call on a read-only collection: ParameterCollection.__setattr__ raises RuntimeError
                      before the setter runs; NOTHING changes (no value, no flag) -- also for the in-place mutators.
      SetCache(o,w)   ArmiObject._setCache / Material._setCache.
+     SetHeight(b,g)  Block.setHeight -> Assembly.calculateZCoords: block height/z parameters + the parent's axial bounds.
+     SetDFlag(o,v)   Block.derivedMustUpdate (validity of the derived shapes' stored volume): cache state.
+     ExitRefused     __exit__ of a scope whose objects were frozen inside it: RuntimeError, nothing restored.
      ReadGrid(o)     the public grid getters (HexGrid.pitch / Core.getAssemblyPitch ...): no effect -- stated as an action
                      because a getter may memoise, and the observation of the grid includes what the getters answer.
      SetGrid(o,g)    HexGrid.changePitch / CartesianGrid.changePitch / assignment of axial bounds
@@ -112,6 +115,9 @@ VARIABLES parent, cls, live,
           linkto,   \* the object a component's linked dimension (bond id = "fuel.od") resolves through; 0 = none
           val, rest, cass, cbak, dass, dbak,
           cache, cachebak, mcache, mcachebak, grid, gbak,
+          dflag,    \* Block.derivedMustUpdate: 1 = the derived shapes' stored volume is pending recomputation, 0 = valid.
+                    \* The validity of a cached quantity is cache state: what is settled inside a scope must not be
+                    \* what holds after it (as built nothing backs it up; the statement's view restores it)
           frames, ro, serial, nextSerial,
           db,       \* the database snapshot last written: objects, tree, stored serials and values
           ident,    \* which object an object is an incarnation of (itself, or what a loaded object was written from)
@@ -119,7 +125,7 @@ VARIABLES parent, cls, live,
           bad       \* names of the step properties the last step violated (always {} in a correct design)
 tree  == <<parent, cls, live, linkto>>
 pvars == <<val, rest, cass, cbak, dass, dbak>>
-cvars == <<cache, cachebak, mcache, mcachebak>>
+cvars == <<cache, cachebak, mcache, mcachebak, dflag>>
 gvars == <<grid, gbak>>
 svars == <<serial, nextSerial, db, ident>>
 vars  == <<tree, pvars, cvars, gvars, frames, ro, svars>>
@@ -146,15 +152,16 @@ Refused(e,a) == err' = e /\ act' = a
 \* Exit: every value under the root equals the snapshot of the scope being closed, except the kept parameters,
 \* which retain their current value; caches and grids equal the snapshot; nothing outside the scope changes
 ExitRestoresStep ==
-    act'.n = "Exit" =>
+    act'.n = "Exit" /\ err' = "" =>
         LET F == frames[Len(frames)]
             U == Under(F.root)
-        IN /\ \A o \in U : \A p \in Par : val'[o][p] = IF <<cls[o], p>> \in F.keep THEN val[o][p] ELSE F.sval[o][p]
+        IN /\ \A o \in U : dflag'[o] = F.sdflag[o]
+           /\ \A o \in U : \A p \in Par : val'[o][p] = IF <<cls[o], p>> \in F.keep THEN val[o][p] ELSE F.sval[o][p]
            /\ \A o \in U : rest'[o] = F.srest[o] /\ cache'[o] = F.scache[o] /\ mcache'[o] = F.smcache[o]
            /\ \A o \in live \ U : val'[o] = val[o] /\ rest'[o] = rest[o] /\ cache'[o] = cache[o]
                                   /\ mcache'[o] = mcache[o] /\ grid'[o] = grid[o]
 ExitRestoresGridStep ==
-    act'.n = "Exit" => LET F == frames[Len(frames)] IN \A o \in Under(F.root) : grid'[o] = F.sgrid[o]
+    act'.n = "Exit" /\ err' = "" => LET F == frames[Len(frames)] IN \A o \in Under(F.root) : grid'[o] = F.sgrid[o]
 
 \* Enter changes no value (and empties the caches inside the scope)
 EnterKeepsValuesStep == act'.n = "Enter" => val' = val /\ rest' = rest /\ grid' = grid
@@ -189,7 +196,8 @@ SerialFreshStep ==
 ReadOnlyRefusesStep == \A o \in live : ro[o] => val'[o] = val[o] /\ rest'[o] = rest[o]
 ReadOnlyForeverStep == \A o \in live : ro[o] => ro'[o]
 RefusalsChangeNoValueStep == err' # "" => val' = val /\ rest' = rest /\ grid' = grid /\ cache' = cache /\ mcache' = mcache
-                                         /\ cass' = cass /\ UNCHANGED <<tree, frames, ro, svars>>
+                                         /\ cass' = cass /\ dflag' = dflag /\ UNCHANGED <<tree, ro, svars>>
+                                         /\ (act'.n # "Exit" => frames' = frames)
 
 StepProps == {"ExitRestores", "ExitRestoresGrid", "EnterKeepsValues", "CopyEqual", "OnlyTargetChanges",
               "SerialFresh", "ReadOnlyRefuses", "ReadOnlyForever", "RefusalsChangeNoValue"}
@@ -213,7 +221,8 @@ EnterK(r, K) ==
     /\ \A o \in Under(r) : ~ro[o]
     /\ \E U \in {Under(r)} : \E C \in {{cls[o] : o \in Under(r)}} :   \* (singleton \E: evaluated once)
           /\ frames' = Append(frames, [root |-> r, keep |-> K, sval |-> val, srest |-> rest,
-                                       scache |-> cache, smcache |-> mcache, sgrid |-> grid])
+                                       scache |-> cache, smcache |-> mcache, sgrid |-> grid, sdflag |-> dflag])
+          /\ dflag' = dflag
           /\ cbak' = [o \in Node |-> IF o \in U THEN <<[val |-> val[o], rest |-> rest[o], ass |-> cass[o]]>> \o cbak[o]
                                      ELSE cbak[o]]
           /\ cass' = [o \in Node |-> IF o \in U THEN ClearBk(cass[o]) ELSE cass[o]]
@@ -235,9 +244,20 @@ Enter(r, K) == K \in Keeps /\ EnterK(r, K)
 KeptNow(o, K)  == IF HasBk(cass[o]) THEN Kept(o, K) ELSE {}
 DiffNow(o, K)  == {p \in KeptNow(o, K) : val[o][p] # Head(cbak[o]).val[p]}
 
+\* __exit__ on a scope whose objects were made read-only while it was open: ParameterCollection.restoreBackup of the
+\* first object (the root) is refused by __setattr__ at its first field -- RuntimeError leaves __exit__, the scope is
+\* over, NOTHING has been restored (values stay as they were frozen; the backups are simply never used again)
+ExitRefused ==
+    /\ LevelOK
+    /\ "Exit" \in Acts /\ frames # <<>> /\ ro[frames[Len(frames)].root]
+    /\ frames' = SubSeq(frames, 1, Len(frames) - 1)
+    /\ UNCHANGED <<tree, pvars, cvars, gvars, ro, svars>>
+    /\ Refused("RuntimeError", [n |-> "Exit", r |-> frames[Len(frames)].root, keep |-> frames[Len(frames)].keep])
+    /\ Rec
+
 Exit ==
     /\ LevelOK
-    /\ "Exit" \in Acts /\ frames # <<>>
+    /\ "Exit" \in Acts /\ frames # <<>> /\ ~ro[frames[Len(frames)].root]
     /\ \E F \in {frames[Len(frames)]} : \E U \in {Under(frames[Len(frames)].root)} :
        \E C \in {{cls[o] : o \in U}} : \E diff \in {[o \in U |-> DiffNow(o, F.keep)]} :
           /\ frames' = SubSeq(frames, 1, Len(frames) - 1)
@@ -257,6 +277,7 @@ Exit ==
           /\ mcachebak' = [o \in Node |-> IF o \in U /\ HasMat(o) THEN Tail(mcachebak[o]) ELSE mcachebak[o]]
           /\ grid' = [o \in Node |-> IF o \in U /\ HasGrid(o) THEN Head(gbak[o]) ELSE grid[o]]
           /\ gbak' = [o \in Node |-> IF o \in U /\ HasGrid(o) /\ GridSlot = "stack" THEN Tail(gbak[o]) ELSE gbak[o]]
+          /\ dflag' = [o \in Node |-> IF o \in U THEN F.sdflag[o] ELSE dflag[o]]
           /\ Ok([n |-> "Exit", r |-> F.root, keep |-> F.keep])
     /\ UNCHANGED <<tree, ro, svars>>
     /\ Rec
@@ -283,14 +304,16 @@ AssignROV(o, p, v) ==
 AssignRO(o, p, v) == v \in Val /\ AssignROV(o, p, v)
 
 \* trace validation only: a mutator with side effects confined to the objects in T (all writeable)
-Havoc(o, T, nval, nrest, ncass, ncache, nmcache) ==
+Havoc(o, T, nval, nrest, ncass, ncache, nmcache, ngrid, ndflag) ==
     /\ o \in T /\ T \subseteq live /\ \A x \in T : ~ro[x]
     /\ val'  = [x \in Node |-> IF x \in T THEN nval[x] ELSE val[x]]
     /\ rest' = [x \in Node |-> IF x \in T THEN nrest[x] ELSE rest[x]]
     /\ cass' = [x \in Node |-> IF x \in T THEN ncass[x] ELSE cass[x]]
     /\ cache'  = [x \in Node |-> IF x \in T THEN ncache[x] ELSE cache[x]]      \* mutators may drop caches
     /\ mcache' = [x \in Node |-> IF x \in T THEN nmcache[x] ELSE mcache[x]]
-    /\ UNCHANGED <<tree, cbak, dass, dbak, cachebak, mcachebak, gvars, frames, ro, svars>>
+    /\ grid'   = [x \in Node |-> IF x \in T THEN ngrid[x] ELSE grid[x]]          \* Block.setHeight re-derives the axial mesh
+    /\ dflag'  = [x \in Node |-> IF x \in T THEN ndflag[x] ELSE dflag[x]]
+    /\ UNCHANGED <<tree, cbak, dass, dbak, cachebak, mcachebak, gbak, frames, ro, svars>>
     /\ Ok([n |-> "Havoc", o |-> o])
     /\ Rec
 
@@ -301,7 +324,7 @@ SetCacheV(o, w, tag) ==
     /\ cache'  = IF w = "obj" THEN [cache EXCEPT ![o] = tag] ELSE cache
     /\ mcache' = IF w = "mat" THEN [mcache EXCEPT ![o] = tag] ELSE mcache
     /\ Ok([n |-> "SetCache", o |-> o, w |-> w, tag |-> tag])
-    /\ UNCHANGED <<tree, pvars, cachebak, mcachebak, gvars, frames, ro, svars>>
+    /\ UNCHANGED <<tree, pvars, cachebak, mcachebak, dflag, gvars, frames, ro, svars>>
     /\ Rec
 \* model checking: the cached value is tagged with the nesting level it was computed at
 SetCache(o, w) ==
@@ -324,6 +347,44 @@ ReadGrid(o) ==
     /\ "ReadGrid" \in Acts /\ o \in live /\ HasGrid(o)
     /\ UNCHANGED vars
     /\ Ok([n |-> "ReadGrid", o |-> o])
+    /\ Rec
+
+\* Block.setHeight(h): the block's height / z parameters change (part of `rest`: HeightTok) and Assembly.calculateZCoords
+\* re-derives the k-bounds of the PARENT's axial grid
+HeightTok(g) == IF g = 0 THEN 0 ELSE 100 + g
+SetHeight(b, g) ==
+    /\ LevelOK
+    /\ "SetHeight" \in Acts /\ b \in live /\ parent[b] # 0 /\ HasGrid(parent[b]) /\ HasGrid(b)
+    /\ ~ro[b] /\ ~ro[parent[b]] /\ g \in 0..(NGrid - 1) /\ g # grid[parent[b]]
+    /\ \A x \in Under(b) : ~HasMat(x)     \* (with components below, their lazily stored volumes are dropped too: Havoc)
+    /\ grid' = [grid EXCEPT ![parent[b]] = g]
+    /\ rest' = [rest EXCEPT ![b] = HeightTok(g)]
+    /\ cass' = [cass EXCEPT ![b] = ALL]
+    /\ cache' = [x \in Node |-> IF x \in Under(b) THEN 0 ELSE cache[x]]     \* setHeight ends with clearCache()
+    /\ UNCHANGED <<tree, val, cbak, dass, dbak, cachebak, mcache, mcachebak, dflag, gbak, frames, ro, svars>>
+    /\ Ok([n |-> "SetHeight", o |-> b, g |-> g])
+    /\ Rec
+
+\* Block.derivedMustUpdate: set by any change below the block that invalidates the derived shapes (Touch), cleared when
+\* a derived shape recomputes its volume (Derive)
+SetDFlag(o, v) ==
+    /\ LevelOK
+    /\ "SetDFlag" \in Acts /\ o \in live /\ HasGrid(o) /\ parent[o] # 0 /\ v \in {0, 1} /\ dflag[o] # v
+    /\ dflag' = [dflag EXCEPT ![o] = v]
+    /\ UNCHANGED <<tree, pvars, cache, cachebak, mcache, mcachebak, gvars, frames, ro, svars>>
+    /\ Ok([n |-> "SetDFlag", o |-> o, v |-> v])
+    /\ Rec
+
+\* trace validation only: ArmiObject.copyParamsFrom / updateParamsFrom (dst takes the parameter values of src): whatever
+\* values dst ends up with, it stays the object it was -- its serial number is its own
+ParamsFrom(how, dst, src, nval, nrest, ncass, nlink) ==
+    /\ dst \in live /\ src \in live /\ dst # src /\ ~ro[dst] /\ cls[dst] = cls[src]
+    /\ val'  = [val EXCEPT ![dst] = nval[dst]]
+    /\ rest' = [rest EXCEPT ![dst] = nrest[dst]]
+    /\ cass' = [cass EXCEPT ![dst] = ncass[dst]]
+    /\ linkto' = [linkto EXCEPT ![dst] = nlink[dst]]     \* (a linked dimension is a value like any other: it is taken over)
+    /\ UNCHANGED <<parent, cls, live, cbak, dass, dbak, cvars, gvars, frames, ro, svars>>
+    /\ Ok([n |-> how, o |-> dst, src |-> src])
     /\ Rec
 
 (* ---------- copies ---------- *)
@@ -351,6 +412,7 @@ Copy(o, how) ==
           /\ cass'   = [y \in Node |-> IF y \in new THEN (IF how = "DeepCopy" THEN ALL ELSE cass[from(y)]) ELSE cass[y]]
           /\ cache'  = [y \in Node |-> IF y \in new THEN cache[from(y)] ELSE cache[y]]
           /\ mcache' = [y \in Node |-> IF y \in new THEN mcache[from(y)] ELSE mcache[y]]
+          /\ dflag'  = [y \in Node |-> IF y \in new THEN dflag[from(y)] ELSE dflag[y]]
           /\ grid'   = [y \in Node |-> IF y \in new THEN grid[from(y)] ELSE grid[y]]
           /\ serial' = [y \in Node |-> IF y \in new
                                        THEN (IF how = "Pickle" /\ PickleSerial = "kept" THEN serial[from(y)]
@@ -365,7 +427,7 @@ Copy(o, how) ==
 (* ---------- read-only ---------- *)
 MakeReadOnly(r) ==
     /\ LevelOK
-    /\ "MakeReadOnly" \in Acts /\ r \in live /\ parent[r] = 0 /\ frames = <<>>
+    /\ "MakeReadOnly" \in Acts /\ r \in live /\ parent[r] = 0 /\ (frames = <<>> \/ "FreezeInScope" \in Acts)
     /\ \E o \in Under(r) : ~ro[o]
     /\ ro' = [o \in Node |-> ro[o] \/ o \in Under(r)]
     /\ UNCHANGED <<tree, pvars, cvars, gvars, frames, svars>>
@@ -405,7 +467,7 @@ WriteDb(r) ==
 \* nothing created afterwards can collide with ANY live object.  loadReadOnly = load + makeParametersReadOnly.
 \* useDb: the parameter values of the loaded objects are the stored ones (model checking) / those given (traces:
 \* the database round trip itself is property C04's business)
-LoadDbV(how, useDb, nval, nrest, ncass, ngrid) ==
+LoadDbV(how, useDb, nval, nrest, ncass, ngrid, ndflag) ==
     /\ LevelOK
     /\ how \in Acts /\ how \in {"LoadDb", "LoadDbRO"} /\ db.has /\ Len(db.objs) <= Cardinality(FreeIds)
     /\ \E src \in {db.objs} : \E free \in {SortedSeq(FreeIds)} :
@@ -426,6 +488,7 @@ LoadDbV(how, useDb, nval, nrest, ncass, ngrid) ==
           /\ grid'   = [y \in Node |-> IF y \in new THEN (IF useDb THEN db.grid[from(y)] ELSE ngrid[y]) ELSE grid[y]]
           /\ cache'  = [y \in Node |-> IF y \in new THEN 0 ELSE cache[y]]
           /\ mcache' = [y \in Node |-> IF y \in new THEN 0 ELSE mcache[y]]
+          /\ dflag'  = [y \in Node |-> IF y \in new THEN (IF useDb THEN 0 ELSE ndflag[y]) ELSE dflag[y]]
           /\ serial' = [y \in Node |-> IF y \in new THEN db.serial[from(y)] ELSE serial[y]]
           /\ ident'  = [y \in Node |-> IF y \in new THEN db.ident[from(y)] ELSE ident[y]]
           /\ nextSerial' = IF DbSerial = "max" THEN Max({nextSerial + k, db.max + 1}) ELSE db.max + 1
@@ -433,7 +496,7 @@ LoadDbV(how, useDb, nval, nrest, ncass, ngrid) ==
           /\ Ok([n |-> how, ids |-> [i \in 1..k |-> <<src[i], free[i]>>]])
     /\ UNCHANGED <<cbak, dass, dbak, cachebak, mcachebak, gbak, frames, db>>
     /\ Rec
-LoadDb(how) == LoadDbV(how, TRUE, val, rest, cass, grid)
+LoadDb(how) == LoadDbV(how, TRUE, val, rest, cass, grid, dflag)
 
 (* ---------- initial state ---------- *)
 InitWith(p0, c0) ==
@@ -446,7 +509,7 @@ InitWith(p0, c0) ==
     /\ cass = [o \in Node |-> ALL] /\ cbak = [o \in Node |-> <<>>]
     /\ dass = [c \in Classes |-> [p \in Par |-> NEVER]] /\ dbak = [c \in Classes |-> [p \in Par |-> <<>>]]
     /\ cache = [o \in Node |-> 0] /\ cachebak = [o \in Node |-> <<>>]
-    /\ mcache = [o \in Node |-> 0] /\ mcachebak = [o \in Node |-> <<>>]
+    /\ mcache = [o \in Node |-> 0] /\ mcachebak = [o \in Node |-> <<>>] /\ dflag = [o \in Node |-> 0]
     /\ grid = [o \in Node |-> 0] /\ gbak = [o \in Node |-> <<>>]
     /\ frames = <<>> /\ ro = [o \in Node |-> FALSE]
     /\ serial = [o \in Node |-> IF o <= n0 THEN o ELSE 0] /\ nextSerial = n0 + 1
@@ -456,11 +519,13 @@ Init == InitWith(Parent0, Cls0)
 
 Step ==
     \/ \E r \in Node : \E K \in Keeps : Enter(r, K)
-    \/ Exit
+    \/ Exit \/ ExitRefused
     \/ \E o \in Node : \E p \in Par : \E v \in Val : Assign(o, p, v) \/ AssignRO(o, p, v)
     \/ \E o \in Node : \E w \in {"obj", "mat"} : SetCache(o, w)
     \/ \E o \in Node : \E g \in 0..(NGrid - 1) : SetGrid(o, g)
     \/ \E o \in Node : ReadGrid(o)
+    \/ \E o \in Node : \E g \in 0..(NGrid - 1) : SetHeight(o, g)
+    \/ \E o \in Node : \E v \in {0, 1} : SetDFlag(o, v)
     \/ \E o \in Node : Copy(o, "DeepCopy") \/ Copy(o, "Pickle")
     \/ \E r \in Node : MakeReadOnly(r)
     \/ \E o \in Node : \E m \in UNION {CallsOf[c] : c \in DOMAIN CallsOf} : CallRO(o, m)
@@ -476,8 +541,9 @@ TypeOK ==
 
 \* mechanism depth = number of open scopes that cover the object (all kinds of backup, except the single grid slot)
 \* (\A x \in {e} : ... binds e once; TLC re-evaluates LET definitions at every use)
+\* (objects frozen inside a scope keep backups that are never used again: ExitRefused)
 StacksAligned ==
-    \A o \in live : \A k \in {Covering(o)} :
+    \A o \in live : ~ro[o] => \A k \in {Covering(o)} :
         /\ Len(cbak[o]) = k /\ Len(cachebak[o]) = k
         /\ HasMat(o) => Len(mcachebak[o]) = k
         /\ HasGrid(o) /\ GridSlot = "stack" => Len(gbak[o]) = k
@@ -485,26 +551,26 @@ StacksAligned ==
 \* LIFO / "the backup contains the outer backup": the j-th covering scope (outermost first) is backed by the
 \* (k-j+1)-th entry of the object's stack and that entry is exactly what the scope saw when it was opened
 BackupsAreSnapshots ==
-    \A o \in live : \A ci \in {CoverIdx(o)} : \A k \in {Len(ci)} :
+    \A o \in live : ~ro[o] => \A ci \in {CoverIdx(o)} : \A k \in {Len(ci)} :
         \A j \in 1..k : \A F \in {frames[ci[j]]} :
               /\ k - j + 1 <= Len(cbak[o]) => /\ cbak[o][k - j + 1].val = F.sval[o]
                                               /\ cbak[o][k - j + 1].rest = F.srest[o]
               /\ k - j + 1 <= Len(cachebak[o]) => cachebak[o][k - j + 1] = F.scache[o]
               /\ HasMat(o) /\ k - j + 1 <= Len(mcachebak[o]) => mcachebak[o][k - j + 1] = F.smcache[o]
 GridBackupsAreSnapshots ==
-    \A o \in live : HasGrid(o) =>
+    \A o \in live : HasGrid(o) /\ ~ro[o] =>
         \A ci \in {CoverIdx(o)} : \A k \in {Len(ci)} :
             \A j \in 1..k : k - j + 1 <= Len(gbak[o]) /\ gbak[o][k - j + 1] = frames[ci[j]].sgrid[o]
 
 \* the `assigned & SINCE_BACKUP` shortcut is sound: a collection whose values differ from its innermost backup
 \* has the bit set (so a kept value is never thrown away)
 GateSound ==
-    \A o \in live : cbak[o] # <<>> /\ val[o] # Head(cbak[o]).val => HasBk(cass[o])
+    \A o \in live : ~ro[o] /\ cbak[o] # <<>> /\ val[o] # Head(cbak[o]).val => HasBk(cass[o])
 
 \* a cached value that is present was computed at a nesting level that is still open around the object
 \* (originals only: a copy made inside a scope legitimately carries the source's cache with it)
 CacheNoLeak ==
-    \A o \in live : o <= NOrig => \A k \in {Covering(o)} : cache[o] <= 1 + k /\ mcache[o] <= 1 + k
+    \A o \in live : o <= NOrig /\ ~ro[o] => \A k \in {Covering(o)} : cache[o] <= 1 + k /\ mcache[o] <= 1 + k
 
 \* two live objects hold the same serial number only if they are incarnations of the same object (a reactor loaded
 \* from a database next to the reactor it was written from); in particular nothing created later collides with them
@@ -533,6 +599,7 @@ Obs == [val    |-> [o \in live |-> val[o]],
         cache  |-> [o \in live |-> cache[o]],
         mcache |-> [o \in live |-> mcache[o]],
         grid   |-> [o \in live |-> grid[o]],
+        dflag  |-> [o \in live |-> dflag[o]],
         ro     |-> [o \in live |-> ro[o]],
         parent |-> [o \in live |-> parent[o]],
         cls    |-> [o \in live |-> cls[o]],
@@ -542,12 +609,15 @@ Obs == [val    |-> [o \in live |-> val[o]],
         err    |-> err]
 \* identity of a state for the edge graph (everything but err/act)
 Vars == [parent |-> [o \in live |-> parent[o]], cls |-> [o \in live |-> cls[o]], link |-> [o \in live |-> linkto[o]],
-         val |-> [o \in live |-> val[o]], cass |-> [o \in live |-> cass[o]], cbak |-> [o \in live |-> cbak[o]],
+         val |-> [o \in live |-> val[o]], rest |-> [o \in live |-> rest[o]], cass |-> [o \in live |-> cass[o]],
+         cbak |-> [o \in live |-> cbak[o]],
          dass |-> dass, dbak |-> dbak,
          cache |-> [o \in live |-> cache[o]], cachebak |-> [o \in live |-> cachebak[o]],
          mcache |-> [o \in live |-> mcache[o]], mcachebak |-> [o \in live |-> mcachebak[o]],
-         grid |-> [o \in live |-> grid[o]], gbak |-> [o \in live |-> gbak[o]],
-         frames |-> [i \in 1..Len(frames) |-> [root |-> frames[i].root, keep |-> frames[i].keep]],
+         grid |-> [o \in live |-> grid[o]], gbak |-> [o \in live |-> gbak[o]], dflag |-> [o \in live |-> dflag[o]],
+         \* (dflag has no backup in the mechanism: its snapshot is part of the state's identity)
+         frames |-> [i \in 1..Len(frames) |-> [root |-> frames[i].root, keep |-> frames[i].keep,
+                                               sdflag |-> [o \in live |-> frames[i].sdflag[o]]]],
          ro |-> [o \in live |-> ro[o]], serial |-> [o \in live |-> serial[o]], next |-> nextSerial,
          ident |-> [o \in live |-> ident[o]],
          db |-> [has |-> db.has, root |-> db.root, objs |-> db.objs, max |-> db.max,
